@@ -109,7 +109,7 @@ def forms(p: str) -> List[str]:
 
 def forms_for(kind: str, p: str) -> List[str]:
     fs = forms(p)
-    if kind.startswith(("reexport.", "nested.", "inherit.")):
+    if kind.startswith(("reexport.", "nested.", "inherit.", "sametext.", "reexportmodule.")):
         fs += [RAWTAIL, placeholder(RAWTAIL)]        # the raw block planted next to the payload
     if RAWTAIL in p or placeholder(RAWTAIL) in p:
         head = p[:len(MARK) + 2]
@@ -131,7 +131,10 @@ KINDS = (["modname"] + [f"doc.{f}" for f in DOCFORMATS] + [f"field.{f}" for f in
          + ["xref.epytext", "xref.restructuredtext", "doctest.epytext", "doctest.restructuredtext"]
          + PYVAL_KINDS + ["deprecated"] + [f"imagealt.{e}" for e in ("png", "pdf", "PNG", "svg", "SVG", "webm")] + ["imageuri.svg"]
          + ["reexport.plaintext", "nested.plaintext.appfirst", "nested.plaintext.pkgfirst", "inherit.plaintext.before", "inherit.plaintext.after",
-            "heading.epytext", "mathtext", "projname", "projurl"])
+            "heading.epytext", "sametext.rstfirst", "sametext.plainfirst", "reexportmodule.plaintext"]
+         + [f"codeblock.{l}" for l in ("none", "python", "html", "shell")] + ["mathtext", "projname", "projurl"])
+# pages on which the canary sits in the author's own raw directive of a reST docstring: exempt from the property
+EXEMPT_PAGES = {"sametext.rstfirst": ("zrst.html",), "sametext.plainfirst": ("zrst.html",)}
 # docstring kinds of RoleHistory.tla (one function per docstring, in history order)
 ROLE_DOCSTRINGS = {
     "rawfail": ".. role:: html(raw)\n   :format: html\n\n.. default-role:: html\n\nDeclares a raw default role, then docutils raises.\n\n"
@@ -144,7 +147,7 @@ def payload_for(kind: str, p: str) -> str:
     """The payload as planted for this kind (characters the position cannot hold are dropped)."""
     if kind == "modname":
         return fname(p)
-    if kind.startswith(("field.", "xref.")) or kind in ("doc.google", "doc.numpy"):
+    if kind.startswith(("field.", "xref.", "codeblock.", "doctest.")) or kind in ("doc.google", "doc.numpy"):
         # form feed, U+2028 ... are line / word separators for the field and section parsers: the pieces would be
         # parsed as different things (identifier or not) in the canary and in its twin
         p = "".join(c for c in p if not c.isspace())
@@ -152,7 +155,7 @@ def payload_for(kind: str, p: str) -> str:
         return nolt(p)              # '<' separates label and target in both markups
     if kind == "deprecated":
         return p + "-"              # never an identifier, twin included: an identifier is resolved as a name instead
-    if kind.startswith("doctest."):
+    if kind.startswith(("doctest.", "codeblock.")):
         return p.replace("'", "").replace('"', "").replace("#", "")     # python tokens of the doctest colorizer
     return p
 
@@ -240,6 +243,33 @@ def gen(kind: str, p: str) -> Dict[str, Any]:
         for n, k in enumerate(kind.split(":", 1)[1].split(","), 1):
             src += f"def f{n}():\n" + _ds(ROLE_DOCSTRINGS.get(k) or f"Text `{p}` end.", 4)
         files["zpkg/amod.py"] = _escape_docstring_source(src)
+    elif kind.startswith("sametext."):
+        # the SAME docstring text in a restructuredtext module and in a plaintext module, two roots, both orders
+        args = ["--docformat", "restructuredtext"]
+        block = "<i>" + RAWTAIL
+        if not any(c in p for c in "<>&\"'"):
+            block = placeholder(block)              # the twin
+        d = f"Word {p} first. More text.\n\nSecond {p} paragraph.\n\n.. raw:: html\n\n   {block}\n"
+        files = {"zrst.py": _escape_docstring_source('"""reST module."""\ndef fun():\n' + _ds(d, 4)),
+                 "zplain.py": _escape_docstring_source('__docformat__ = "plaintext"\ndef fun():\n' + _ds(d, 4))}
+        roots = ["zrst.py", "zplain.py"] if kind.endswith("rstfirst") else ["zplain.py", "zrst.py"]
+    elif kind == "reexportmodule.plaintext":
+        # zapkg (plaintext) holds module m; zbpkg (restructuredtext) re-exports the MODULE through __all__
+        args = ["--docformat", "restructuredtext"]
+        block = "<i>" + RAWTAIL
+        if not any(c in p for c in "<>&\"'"):
+            block = placeholder(block)              # the twin
+        d = f"Word {p} first. More text.\n\nSecond {p} paragraph.\n\n.. raw:: html\n\n   {block}\n"
+        files = {"zapkg/__init__.py": '"""Package a, plain text."""\n__docformat__ = "plaintext"\n',
+                 "zapkg/m.py": _escape_docstring_source('"""Module m."""\ndef fun():\n' + _ds(d, 4)),
+                 "zbpkg/__init__.py": '"""Package b."""\nfrom zapkg import m\n__all__ = ["m"]\n'}
+        roots = ["zapkg", "zbpkg"]
+    elif base == "codeblock":
+        # a code block of a reST docstring, by language
+        args = ["--docformat", "restructuredtext"]
+        directive = {"none": ".. code::", "python": ".. code-block:: python", "html": ".. code:: html", "shell": ".. code-block:: shell"}[fmt]
+        d = f"Example.\n\n{directive}\n\n    {p} text\n    more {p}\n\nEnd."
+        files["zpkg/amod.py"] = _escape_docstring_source('"""Module."""\ndef ffun():\n' + _ds(d, 4))
     elif kind.startswith("inherit.plaintext."):
         args = ["--docformat", "restructuredtext"]
         block = "<i>" + RAWTAIL
@@ -850,6 +880,7 @@ def make_pool(n: int):
 # ------------------------------------------------------------------------------------- judging
 CFG_ENUM = """SPECIFICATION Spec
 CONSTANTS Source = "enum"
+          MovedModuleDocformat = "{movedmod}"
 CONSTRAINT EmitEnum
 INVARIANT {raw}
 INVARIANT {sink}
@@ -864,9 +895,19 @@ INVARIANT StartsStandard
 """
 CFG_FILE = """SPECIFICATION Spec
 CONSTANTS Source = "file"
+          MovedModuleDocformat = "{movedmod}"
 CONSTRAINT EmitFile
 """
 KF_MATH = "math-text-mode-copied-raw"
+KF_MOVEDMOD = "re-exported-module-inherits-the-docformat-of-the-new-package"
+
+
+def kf_moved_module_docformat(w: Dict[str, Any]) -> bool:
+    """Known finding: a re-exported MODULE that declares no __docformat__ inherits the one of the package that re-exports it
+    (Module.docformat asks self.parent).  Matches ONLY violations of the source kind `reexportmodule.plaintext` on the page
+    of the moved module with html2stan observed on level-0 text (the raw block of a plaintext docstring read as reST)."""
+    return (w.get("kind") == "reexportmodule.plaintext" and w.get("invariant") == "SkeletonEqual"
+            and w.get("page") == "zbpkg.m.html" and any(e[0] == "ParseXml" and e[1] == 0 for e in w.get("events", [])))
 # payloads compared with the model for `mathtext` (copied raw, markup turns into elements or XML errors)
 MODELLED_MATHTEXT = ("entities", "xmlbreak")
 
@@ -921,7 +962,7 @@ def judge_pair(canary: Dict[str, Any], plain: Dict[str, Any], strict_appears: bo
     pk = {page_key(k, kind, plain["payload"]): v for k, v in plain["pages"].items()}
     mal = {page_key(m["page"], kind, canary["payload"]) for m in canary["malformed"]}
     for k in sorted(set(ck) | set(pk)):
-        if k in mal:
+        if k in mal or k in EXEMPT_PAGES.get(kind, ()):
             continue
         if ck.get(k) != pk.get(k):
             bad.append({"invariant": "SkeletonEqual", "page": k,
@@ -963,8 +1004,10 @@ def run(ctx: Ctx) -> int:
     # ---- spec -> code: every (kind, sink) pair of Escape.tla
     ctx.register_matcher(KF_MATH, kf_math_text_raw)
 
-    def enumerate_model(count: bool = True):
-        rr = ctx.tlc("Escape", CFG_ENUM.format(raw="NeverParsedRawExceptKnown", sink="SinkLevelOneExceptKnown"), workers=4, check=True, coverage=ctx.quick and count, timeout=600, count=count)
+    ctx.register_matcher(KF_MOVEDMOD, kf_moved_module_docformat)
+
+    def enumerate_model(movedmod: str, count: bool = True):
+        rr = ctx.tlc("Escape", CFG_ENUM.format(movedmod=movedmod, raw="NeverParsedRawExceptKnown", sink="SinkLevelOneExceptKnown"), workers=4, check=True, coverage=ctx.quick and count, timeout=600, count=count)
         if not rr.printed:
             raise MachineryError("Escape.tla printed no (kind, sink) pair")
         if rr.violated:
@@ -978,7 +1021,8 @@ def run(ctx: Ctx) -> int:
             m["pairs"].append(pr)
         return rr, mdl
 
-    r, model = enumerate_model()
+    movedmod = "new_package"       # the code as it is; the check uses the transcription the observations conform to
+    r, model = enumerate_model(movedmod)
     pairs = r.printed
     ctx.exhaustive = True
     unknown = sorted({k for k, _ in model} - set(KINDS) - {"rolehist"})
@@ -1086,7 +1130,13 @@ def run(ctx: Ctx) -> int:
         return out
 
     twin = conform(model)
-    strict = ctx.tlc("Escape", CFG_ENUM.format(raw="NeverParsedRaw", sink="SinkLevelOne"), workers=1, timeout=600,
+    if any(d and any(d.values()) and o["kind"] == "reexportmodule.plaintext" for d, o in zip(twin, observed_records) if o):
+        r_alt, model_alt = enumerate_model("defining_package", count=False)
+        twin_alt = conform(model_alt)
+        if sum(1 for d in twin_alt if d and any(d.values())) < sum(1 for d in twin if d and any(d.values())):
+            movedmod, model, twin, pairs = "defining_package", model_alt, twin_alt, r_alt.printed
+    ctx.extra["model_variant_followed_by_code"] = {"MovedModuleDocformat": movedmod}
+    strict = ctx.tlc("Escape", CFG_ENUM.format(movedmod=movedmod, raw="NeverParsedRaw", sink="SinkLevelOne"), workers=1, timeout=600,
                      count=False, extra=["-continue"])
     ctx.extra["design_level_invariants_violated"] = sorted(set(strict.violated))
     for d, o in zip(twin, observed_records):
@@ -1112,7 +1162,7 @@ def run(ctx: Ctx) -> int:
     twin = [twin[i] for i in keep]
     f = ctx.scratch / "observed.json"
     f.write_text(json.dumps(observed_records))
-    r2 = ctx.tlc("Escape", CFG_FILE, workers=1, env={"C10_OBSERVED": str(f)}, check=True, timeout=600)
+    r2 = ctx.tlc("Escape", CFG_FILE.format(movedmod=movedmod), workers=1, env={"C10_OBSERVED": str(f)}, check=True, timeout=600)
     got = {x["n"]: x for x in r2.printed}
     if len(got) != len(observed_records):
         raise MachineryError(f"TLC judged {len(got)} of {len(observed_records)} observed flows")
@@ -1144,7 +1194,7 @@ def run(ctx: Ctx) -> int:
     broken[0]["sinks"][0][3] = 2
     broken[0]["events"].append(["ParseXml", 0, 0])
     f.write_text(json.dumps(broken))
-    r3 = ctx.tlc("Escape", CFG_FILE, workers=1, env={"C10_OBSERVED": str(f)}, check=True, count=False)
+    r3 = ctx.tlc("Escape", CFG_FILE.format(movedmod=movedmod), workers=1, env={"C10_OBSERVED": str(f)}, check=True, count=False)
     nc["tlc_rejects_corrupted_observation"] = (not r3.printed[0]["sinkLevelOne"]) and (not r3.printed[0]["neverParsedRaw"]) \
         and bool(r3.printed[0]["stepsNotInModel"])
     # a page in which the canary is written raw must be caught by the crawler (skeleton / well-formedness)
